@@ -323,17 +323,21 @@ func probeCase(r *rand.Rand, o *hout.Out, idx int) {
 	q := 2
 	echoWanted := 0
 	logonSeq := 0
+	logoutSeq := 0
 	for _, at := range inbound {
 		time.Sleep(time.Until(sr.t0.Add(at)))
 		mt := []string{"0", "V", "1", "A"}[r.Intn(4)]
 		if kind == 1 {
-			mt = []string{"A", "0", "1", "V"}[(idx/4)%4]
+			mt = []string{"A", "0", "1", "V", "5"}[(idx/4)%5]
 		}
 		if kind != 1 && mt == "A" {
 			mt = "V"
 		}
 		if mt == "1" {
 			echoWanted++
+		}
+		if mt == "5" { // the peer's Logout while our own TestRequest is pending: acknowledged with exactly one Logout
+			logoutSeq = q
 		}
 		if mt == "A" { // a further Logon while logged on (our own TestRequest pending): exactly one Reject by sequence number
 			logonSeq = q
@@ -385,6 +389,23 @@ func probeCase(r *rand.Rand, o *hout.Out, idx int) {
 		}
 		o.Nontrivial("C16", desc)
 		o.Nontrivial("C06", desc)
+	}
+	// C15: the peer's Logout while our probe is pending is acknowledged with exactly one Logout and not rejected
+	if logoutSeq > 0 {
+		acks, rejects := 0, 0
+		for _, m := range outs {
+			if m.mt == "5" {
+				acks++
+			}
+			if m.mt == "3" && field(m.raw, "45") == strconv.Itoa(logoutSeq) {
+				rejects++
+			}
+		}
+		if acks != 1 || rejects != 0 || sr.s.IsLogged() {
+			o.Fail("C15", "peer-logout-while-probing-not-acknowledged-once", fmt.Sprintf("%s: %d Logouts sent, %d Rejects of it, logged=%v; outs=%v", desc, acks, rejects, sr.s.IsLogged(), outs))
+		}
+		o.Nontrivial("C15", desc)
+		return // the session is logged off now: the probing oracles below do not apply
 	}
 	// C08: while logged on (also while probing) the session is never silent for longer than N + N/10 + slack
 	end := dur
@@ -439,6 +460,55 @@ func probeCase(r *rand.Rand, o *hout.Out, idx int) {
 	}
 }
 
+// C08: a second logon on the same session with a shorter interval (after a logout exchange): heartbeats follow the
+// interval negotiated by the *second* Logon
+func relogonCase(r *rand.Rand, o *hout.Out) {
+	n1 := []int{30, 20, 45}[r.Intn(3)]
+	sr := newSessWith(0, true, fmt.Sprintf("35=A\x0149=P\x0156=M\x0134=1\x0152=20240101-00:00:00.000\x0198=0\x01108=%d\x01", n1))
+	time.Sleep(time.Duration(20+r.Intn(200)) * time.Millisecond)
+	sr.h.ServeIncoming(frame("35=5\x0149=P\x0156=M\x0134=2\x0152=20240101-00:00:00.000\x01"))
+	for i := 0; i < 100 && sr.s.IsLogged(); i++ {
+		time.Sleep(5 * time.Millisecond)
+	}
+	time.Sleep(20 * time.Millisecond)
+	t1 := time.Since(sr.t0)
+	sr.h.ServeIncoming(frame("35=A\x0149=P\x0156=M\x0134=3\x0152=20240101-00:00:00.000\x0198=0\x01108=1\x01"))
+	// the peer keeps talking so that the probe never fires
+	stop := time.Now().Add(3500 * time.Millisecond)
+	q := 4
+	for time.Now().Before(stop) {
+		time.Sleep(600 * time.Millisecond)
+		sr.h.ServeIncoming(frame(fmt.Sprintf("35=0\x0149=P\x0156=M\x0134=%d\x0152=20240101-00:00:00.000\x01", q)))
+		q++
+	}
+	outs, _ := sr.snapshot()
+	logged := sr.s.IsLogged()
+	sr.h.Stop()
+	mu.Lock()
+	defer mu.Unlock()
+	desc := fmt.Sprintf("logon 108=%d, logout exchange, logon 108=1 at %v", n1, t1)
+	o.Nontrivial("C08", desc)
+	o.Count("relogon")
+	if !logged {
+		return // the second logon was not accepted: nothing to measure (C06 is checked elsewhere)
+	}
+	prev := time.Duration(0)
+	for _, m := range outs {
+		if m.at < t1 {
+			continue
+		}
+		if prev > 0 && m.at-prev > N+P8+slack {
+			o.Fail("C08", "silent-too-long-after-relogon", fmt.Sprintf("%s: %v between outbound messages (limit %v); outs=%v", desc, m.at-prev, N+P8+slack, outs))
+			return
+		}
+		prev = m.at
+	}
+	end := time.Since(sr.t0)
+	if prev == 0 || end-prev > N+P8+slack+700*time.Millisecond {
+		o.Fail("C08", "silent-too-long-after-relogon", fmt.Sprintf("%s: nothing sent during the last %v; outs=%v", desc, end-prev, outs))
+	}
+}
+
 // C07: a refused Logon (callback refusal, disallowed encryption, interval out of range) and then time passing:
 // nothing but Logon / Logout / Reject may be sent, however long the connection stays open
 func preauthCase(r *rand.Rand, o *hout.Out) {
@@ -490,9 +560,11 @@ func main() {
 	var wg sync.WaitGroup
 	for i := 0; i < *n; i++ {
 		rr := rand.New(rand.NewSource(r.Int63()))
-		wg.Add(4)
+		wg.Add(5)
 		rr4 := rand.New(rand.NewSource(r.Int63()))
 		go func() { defer wg.Done(); preauthCase(rr4, o) }()
+		rr5 := rand.New(rand.NewSource(r.Int63()))
+		go func() { defer wg.Done(); relogonCase(rr5, o) }()
 		go func() { defer wg.Done(); hbCase(rr, o) }()
 		rr2 := rand.New(rand.NewSource(r.Int63()))
 		go func(i int) {
